@@ -143,8 +143,7 @@ func implDraPass(raw json.RawMessage) (any, error) {
 		s := &resourcev1.ResourceSlice{ObjectMeta: metav1.ObjectMeta{Name: "s-shared", UID: "rs-2"}, Spec: resourcev1.ResourceSliceSpec{Driver: drvShared,
 			Pool: resourcev1.ResourcePool{Name: "pool-b", Generation: 1, ResourceSliceCount: 1}, AllNodes: ptr.To(true)}}
 		for _, d := range in.Shared {
-			s.Spec.Devices = append(s.Spec.Devices, resourcev1.Device{Name: d.Name, AllowMultipleAllocations: ptr.To(true),
-				Capacity: map[resourcev1.QualifiedName]resourcev1.DeviceCapacity{capDim: {Value: *resource.NewQuantity(d.Cap, resource.DecimalSI)}}})
+			s.Spec.Devices = append(s.Spec.Devices, sharedDevice(d))
 		}
 		if err := w.Client.Create(ctx, s); err != nil {
 			return nil, err
@@ -243,17 +242,18 @@ func implDraPass(raw json.RawMessage) (any, error) {
 		}
 	}
 	for i, d := range in.Shared {
-		if d.Pre <= 0 {
+		pc := sharedPreConsumed(d)
+		if len(pc) == 0 {
 			continue
 		}
 		// part of the multi-allocatable device's capacity is consumed by an allocated claim of a non-pod consumer
 		c := &resourcev1.ResourceClaim{ObjectMeta: metav1.ObjectMeta{Name: fmt.Sprintf("used-%d", i), Namespace: "default", UID: types.UID(fmt.Sprintf("used-%d", i))},
 			Spec: resourcev1.ResourceClaimSpec{Devices: resourcev1.DeviceClaim{Requests: []resourcev1.DeviceRequest{{Name: "req", Exactly: &resourcev1.ExactDeviceRequest{DeviceClassName: "shared", Count: 1,
-				Capacity: &resourcev1.CapacityRequirements{Requests: map[resourcev1.QualifiedName]resource.Quantity{capDim: *resource.NewQuantity(d.Pre, resource.DecimalSI)}}}}}}},
+				Capacity: &resourcev1.CapacityRequirements{Requests: pc}}}}}},
 			Status: resourcev1.ResourceClaimStatus{
 				Allocation: &resourcev1.AllocationResult{Devices: resourcev1.DeviceAllocationResult{Results: []resourcev1.DeviceRequestAllocationResult{{Request: "req", Driver: drvShared, Pool: "pool-b", Device: d.Name,
 					ShareID:          ptr.To(types.UID(fmt.Sprintf("share-%d", i))),
-					ConsumedCapacity: map[resourcev1.QualifiedName]resource.Quantity{capDim: *resource.NewQuantity(d.Pre, resource.DecimalSI)}}}}},
+					ConsumedCapacity: pc}}}},
 				ReservedFor: []resourcev1.ResourceClaimConsumerReference{{APIGroup: "example.com", Resource: "widgets", Name: "w", UID: "w-1"}},
 			}}
 		if err := w.Client.Create(ctx, c); err != nil {
@@ -332,11 +332,7 @@ func implDraPass(raw json.RawMessage) (any, error) {
 	for key, meta := range res.DRAClaimAllocationMetadata {
 		for it, devs := range meta.Devices {
 			for _, d := range devs {
-				e := MetaEntry{Claim: key.Name, NC: meta.NodeClaimID.Value(), IT: it.Value(), Dev: d.DeviceID.Device.Value(), Pool: d.DeviceID.Pool.Value(), Driver: d.DeviceID.Driver.Value(), Template: d.DeviceID.Template}
-				if q, ok := d.ConsumedCapacity[capDim]; ok {
-					e.Consumed = q.Value()
-				}
-				out.Meta = append(out.Meta, e)
+				out.Meta = append(out.Meta, metaEntry(key.Name, meta.NodeClaimID.Value(), it.Value(), d))
 			}
 		}
 	}
@@ -388,11 +384,7 @@ func genDraPass(r *rand.Rand, t core.Tier) any {
 		}
 	}
 	for i := 0; i < r.IntN(2); i++ {
-		d := SharedDev{Name: fmt.Sprintf("mig-%d", i), Cap: int64(2 + r.IntN(6))}
-		if r.IntN(3) == 0 {
-			d.Pre = int64(1 + r.IntN(int(d.Cap))) // consumed by allocations in the cluster, up to all of it
-		}
-		in.Shared = append(in.Shared, d)
+		in.Shared = append(in.Shared, genSharedDev(r, fmt.Sprintf("mig-%d", i), 7)) // some consumed by allocations in the cluster, up to all of it
 	}
 	// existing initialized nodes with a node-local partitionable device, some partitions in use by pods running there;
 	// sometimes a partitionable pool that every node can reach as well
@@ -477,7 +469,7 @@ func genDraPass(r *rand.Rand, t core.Tier) any {
 				case x < 6 || (len(in.Shared) == 0 && len(in.Tmpl) == 0):
 					c.Class, c.Count = "gpu", int64(1+r.IntN(2))
 				case x < 8 && len(in.Shared) > 0:
-					c.Class, c.Cap = "shared", int64(1+r.IntN(4))
+					genSharedClaim(r, &c, in.Shared)
 				case len(in.Tmpl) > 0:
 					c.Class = "tmpl"
 				default:
@@ -564,6 +556,16 @@ func opDraPass() *core.Op {
 						}
 					}
 				}
+			}
+			{
+				granted := map[string]bool{}
+				for _, e := range meta {
+					em, _ := e.(map[string]any)
+					if fmt.Sprint(em["driver"]) == drvShared {
+						granted[fmt.Sprint(em["claim"])] = true
+					}
+				}
+				sharedLabels(add, in.Shared, in.Claims, granted)
 			}
 			for _, e := range meta {
 				em, _ := e.(map[string]any)
